@@ -267,7 +267,41 @@ func runSelfTest(r *core.Report, repo, verif string) {
 			fmt.Printf("SELFTEST-SURVIVOR %s (expected %v; new findings %v) %s\n", m.Name, m.Expect, m.FiredNew, m.Note)
 		}
 	}
-	fmt.Printf("selftest: %d mutants, %d applied, %d killed; %d behaviour-preserving variants, %d quiet\n", nMut, applied, killed, nBenign, quiet)
+	// alpha-renaming invariance: every local, parameter, result and receiver of the repository renamed (bin/alpharename)
+	// must leave the findings of this property exactly as they are on the unchanged tree
+	alpha := "skipped (bin/alpharename not built)"
+	if ar := filepath.Join(filepath.Dir(self), "alpharename"); fileExists(ar) {
+		tmp, err := os.MkdirTemp("", "yfalpha")
+		if err == nil {
+			defer os.RemoveAll(tmp)
+			if out, err := exec.Command(ar, "-repo", repo, "-out", tmp).CombinedOutput(); err != nil {
+				alpha = "alpharename failed: " + core.Trunc(string(out), 200)
+			} else if got, err := violationKeys(self, repo, verif, r.Property, filepath.Join(tmp, "overlay.json")); err != nil {
+				alpha = "run on the renamed program failed: " + err.Error()
+			} else {
+				var diff []string
+				for k := range got {
+					if !base[k] {
+						diff = append(diff, "+"+k)
+					}
+				}
+				for k := range base {
+					if !got[k] {
+						diff = append(diff, "-"+k)
+					}
+				}
+				sort.Strings(diff)
+				if len(diff) == 0 {
+					alpha = "invariant"
+				} else {
+					alpha = fmt.Sprintf("DEPENDS ON NAMES: %v", diff)
+					fmt.Printf("SELFTEST-FALSE-ALARM alpha-renaming (behaviour-preserving by construction; findings differ: %v)\n", diff)
+				}
+			}
+		}
+	}
+	r.Extra["selftest_alpha_renaming"] = alpha
+	fmt.Printf("selftest: %d mutants, %d applied, %d killed; %d behaviour-preserving variants, %d quiet; alpha-renaming: %s\n", nMut, applied, killed, nBenign, quiet, core.Trunc(alpha, 60))
 	r.Extra["selftest_benign"] = nBenign
 	r.Extra["selftest_benign_quiet"] = quiet
 	r.Extra["selftest"] = results
@@ -280,3 +314,8 @@ func init() { SelfTest = runSelfTest }
 
 // SelfTest runs the mutant kill matrix (thorough tier).
 var SelfTest func(r *core.Report, repo, verif string)
+
+func fileExists(p string) bool {
+	st, err := os.Stat(p)
+	return err == nil && !st.IsDir()
+}
